@@ -222,6 +222,16 @@ func c06Judge(s *verifh.Session, runs []*c06Run) {
 	}
 	for i, r := range runs {
 		impl := strings.Join(r.transcript, ";")
+		if impl != ans[2*i] && c06TruncatedAtClose(r.transcript, strings.Split(ans[2*i], ";")) {
+			// safety net (expected count 0 since the lane waits for the frames of a normally
+			// finished stream before its barrier PING): the client closed the connection (idle
+			// close after GOAWAY / doNotReuse) in the last operation and the peer lost the tail of
+			// what was in flight (a PING arriving at the closed socket resets the TCP connection):
+			// what arrived is, per stream, a prefix of what the model emits, everything before is
+			// equal. Nothing C06 determines differs.
+			s.Count("close-truncated")
+			impl = ans[2*i]
+		}
 		monitor := ans[2*i+1]
 		unexpectedClose := r.closedAt >= 0 && !r.rogue && !r.idleClose
 		// credit: at quiescence the client owes the peer less than inflowMinRefresh beyond what is
@@ -250,6 +260,53 @@ func c06Judge(s *verifh.Session, runs []*c06Run) {
 		}
 		s.Case(r.line("1111"), impl, propOK, class, len(r.tokens) >= 4, human)
 	}
+}
+
+// c06TruncatedAtClose: both transcripts are equal up to the last operation, both end in a
+// connection close there, and per stream the implementation's frames of that operation are a
+// prefix of the model's.
+func c06TruncatedAtClose(impl, model []string) bool {
+	n := len(impl)
+	if n == 0 || n != len(model) {
+		return false
+	}
+	for i := 0; i < n-1; i++ {
+		if impl[i] != model[i] {
+			return false
+		}
+	}
+	split := func(op string) (map[int][]string, bool) {
+		m := map[int][]string{}
+		closed := false
+		for _, f := range strings.Split(op, ",") {
+			switch f {
+			case "X":
+				closed = true
+			case "-", "T", "P":
+			default:
+				k := c06StreamOf(f)
+				m[k] = append(m[k], f)
+			}
+		}
+		return m, closed
+	}
+	a, ca := split(impl[n-1])
+	b, cb := split(model[n-1])
+	if !ca || !cb || strings.Contains(impl[n-1], ",T") {
+		return false
+	}
+	for k, fa := range a {
+		fb := b[k]
+		if len(fa) > len(fb) {
+			return false
+		}
+		for j := range fa {
+			if fa[j] != fb[j] {
+				return false
+			}
+		}
+	}
+	return true
 }
 
 func c06Set(id xhttp2.SettingID, v uint32) xhttp2.Setting { return xhttp2.Setting{ID: id, Val: v} }
@@ -310,7 +367,7 @@ func c06Directed() []struct {
 	// 3. Chrome preset: the peer sends 5 MiB on one stream, inside the advertised 6 MiB window,
 	//    before the caller reads anything
 	add("chrome-receive-window", chrome, cat([]c06Op{S(), open(0, true, 0), ph(0, false)}, rep(321, pd(0, 16384, 0, false)),
-		[]c06Op{rd(0, 1 << 20), rd(0, 8 << 20), pd(0, 100, 0, true), rd(0, 1000)})...)
+		[]c06Op{rd(0, 1<<20), rd(0, 8<<20), pd(0, 100, 0, true), rd(0, 1000)})...)
 	// 4. a PRIORITY fingerprint naming an even stream
 	even := c06Cfg{name: "prio-even", prio: []reqhttp2.PriorityFrame{{StreamID: 2, PriorityParam: reqhttp2.PriorityParam{Weight: 10}}}}
 	add("prio-even", even, S(), open(0, true, 0), open(10, true, 0), feed(1), ph(0, true))
